@@ -410,8 +410,47 @@ def write_replay(pid, v):
     return path
 
 
+def replay_regressions(part):
+    """
+    the seconds-long replay tier: saved inputs under /verif/regress/<ID>/*.json (shrunk counterexamples of repaired
+    defects, of the sensitivity mutants and of the independently seeded changes) go through the replayable check
+    functions, without any generator library, on every run
+    """
+    d = os.path.join(HOME, "regress", part.pid)
+    if not os.path.isdir(d):
+        return 0
+    try:
+        mod = importlib.import_module("vf.props." + part.pid.lower())
+    except ImportError:
+        return 0
+    n = 0
+    for name in sorted(os.listdir(d)):
+        if not name.endswith(".json"):
+            continue
+        try:
+            with open(os.path.join(d, name)) as f:
+                case = json.load(f)
+            fn = mod.CHECKS[case["check"]]
+        except (ValueError, KeyError, OSError) as e:
+            part.harness_errors.append("regression file %s unusable: %r" % (name, e))
+            continue
+        before = len(part.violations)
+        try:
+            part.check(case["check"], fn, case["input"])
+        except HarnessError as e:
+            part.harness_errors.append("regression file %s: %s" % (name, e))
+        for v in part.violations[before:]:
+            v["note"] = (v.get("note") or "") + " [saved regression input %s]" % name
+        n += 1
+    part.evaluations += n
+    part.classes["saved-regression-inputs"] += n
+    return n
+
+
 def finish(part, tier, t0, rule, assumptions, exhaustive=False, required=(), extra=None, level="exploration"):
     pid = part.pid
+    if os.environ.get("VERIF_NO_REGRESS") != "1":
+        replay_regressions(part)
     wall = time.time() - t0
     for c in required:
         if part.classes.get(c, 0) == 0:
